@@ -28,3 +28,33 @@ Definition codeql_spec (doc : json) : list finding :=
 
 Definition dd_spec (doc : json) : list finding :=
   flat_map (fun e => match dd_entry e with Some f => [f] | None => [] end) (arr_of (jget s_results doc)).
+
+(** When do the readers raise?  Exactly when some element is individually unreadable: [readable_*] say, element by
+    element, that every run has a results array, every result an extractable rule id and a locations array, every
+    location the fields the reader dereferences.  (Nothing is silently skipped: a reader either raises or files all.) *)
+Definition is_some {A} (o : option A) : bool := match o with Some _ => true | None => false end.
+Definition all_arr (o : option json) (P : json -> bool) : bool :=
+  match o with Some (JArr l) => forallb P l | _ => false end.
+
+Definition readable_semgrep (doc : json) : bool :=
+  all_arr (jget s_runs doc) (fun run =>
+    all_arr (jget s_results run) (fun result =>
+      match extract_rule_id result run with
+      | Some rule => all_arr (jget s_locations result) (fun loc => is_some (semgrep_location rule loc))
+      | None => false
+      end)).
+
+Definition readable_codeql (doc : json) : bool :=
+  all_arr (jget s_runs doc) (fun run =>
+    match codeql_detect run with
+    | Some true =>
+        all_arr (jget s_results run) (fun result =>
+          match extract_rule_id result run with
+          | Some rule => all_arr (jget s_locations result) (fun loc => is_some (codeql_location rule loc))
+          | None => false
+          end)
+    | Some false => true
+    | None => false
+    end).
+
+Definition readable_dd (doc : json) : bool := all_arr (jget s_results doc) (fun e => is_some (dd_entry e)).
